@@ -97,7 +97,9 @@ def read_fit_raw(path):
         return None, [], []
     try:
         m, recs, offs = _read_fit_raw_plain(path)
-        if all(isinstance(r, FitInfo) for r in recs):
+        # only believe the plain loop when the file really has the layout it assumes (directory, filter list, law, records)
+        if (all(isinstance(r, FitInfo) for r in recs) and isinstance(m.model_dir, (str, os.PathLike)) and isinstance(m.filters, (list, tuple))
+                and not isinstance(m.extinction_law, FitInfo) and (m.extinction_law is None or hasattr(m.extinction_law, 'chi'))):
             return m, recs, offs
     except Exception:
         pass
